@@ -13,7 +13,11 @@ import common
 SNIPPETS = ["x = b'a' 'b'\n", "x = (1,\n\n 2) 3\n", "a = '''m\nn\no''' = 1\n", "foo('''x\ny\nz''' 1)\n", "@dec\n", "try:\n  pass\n",
             "def f(:\n    pass\n", "x = 1 +\n", "f(a for b)\n", "for x in :\n    pass\n", "if x:\npass\n", "x = [1,\n# c\n\n2 3]\n",
             "class A:\n    def f(self):\n        return (1\n\n\n + ) \n", "print 'a'\n", "a = *b\n", "f(**a, *b)\n",
-            "x = 1 + \\\n\\\n 2 3\n", "x = {\n 'a': 1,\n\n 'b' 2}\n", "lambda: (yield)\n\n\nx = = 2\n"]
+            "x = 1 + \\\n\\\n 2 3\n", "x = {\n 'a': 1,\n\n 'b' 2}\n", "lambda: (yield)\n\n\nx = = 2\n",
+            # f-string conversions and format specs inside rejected programs
+            "f\"{x!r}\" 1\n", "y = f\"{x!s:>4}\" +\n", "print(f\"{a!a} {b}\" f\"{c!r}\"\n", "z = f\"{x!r}\"\nq = (\n",
+            # a form feed inside a line (not a line boundary)
+            "x = \"a\x0cb\" 1\ny = 2\n"]
 
 
 def build_parser():
